@@ -294,6 +294,7 @@ class StmtMixin(CallMixin):
         for tgt in s.targets:
             if isinstance(tgt, ast.Subscript):
                 (s2, o) = self.ev1(tgt.value, st)
+                o = self.deref_dictlike(s2, o)
                 (s3, k) = self.ev1(tgt.slice, s2)
                 if isinstance(o.ty, Dict) and o.lv is not None:
                     ck = T.coerce(k, o.ty.k)
